@@ -53,6 +53,21 @@ def run(ck):
     for fn in loaders:
         check_loader_errors(ck, fn)
     check_mmap_len(ck)
+    # the only failure of a load that is given a meaning of its own is NotFound: both loaders fail in open() then, with the same
+    # error; what fails later (reading a directory: EISDIR from read(), ENODEV from mmap()) differs between the loaders
+    from ..common import error_kinds_tested
+    nk = 0
+    for fn in sorted(prog.fns.values(), key=lambda f: f.id):
+        if fn.crate != "rapidquilt":
+            continue
+        kinds = error_kinds_tested(fn, lambda x: df.is_call(x, "Arena::load_file"))
+        for kind, bb in kinds:
+            nk += 1
+            ck.require(kind == "NotFound", "C14-A", "a failed load is only told apart as `not found` (%s)" % fn.id.split("::")[-1],
+                       "%s gives ErrorKind::%s of a failed load a meaning of its own: the two loaders do not fail alike beyond open() (a directory "
+                       "gives EISDIR from read() but ENODEV from mmap()), so the outcome would depend on --mmap" % (fn.id, kind),
+                       fn.where(fn.blocks[bb]["term"]), ok_detail="NotFound only")
+    ck.floor("C14-A", "tests of the error kind of a failed load", nk, 1)
 
     # ---- -A multiapply --------------------------------------------------------------------------------------
     check_analysis_hooks(ck, bad, abort_reach)
